@@ -290,14 +290,12 @@ func (r *gitRepository) FetchRevision(ctx context.Context, projectPath string, r
 		return err
 	}
 
-	var sparseCheckoutDirectories []string
-	if projectPath != "" && projectPath != "." {
-		sparseCheckoutDirectories = []string{projectPath}
-	}
+	// Check out the whole tree: go-git's sparse checkout omits a project directory whose parent directory holds other
+	// files, and the skip-worktree flags and stale files it leaves behind leak into the next revision fetched from this
+	// repository. The caller picks the project's directory out of the copy.
 	err = tree.Checkout(&git.CheckoutOptions{
-		Hash:                      commit.c.Hash,
-		SparseCheckoutDirectories: sparseCheckoutDirectories,
-		Force:                     true,
+		Hash:  commit.c.Hash,
+		Force: true,
 	})
 	if err != nil {
 		return err
